@@ -10,6 +10,17 @@ use std::sync::OnceLock;
 
 pub struct C02;
 
+/// This check is cheap: the quick tier already runs the full alphabet (what used to be the
+/// thorough tier); `deep` marks the extras that only the thorough tier adds.
+#[allow(dead_code)]
+fn full(_t: Tier) -> bool {
+    true
+}
+#[allow(dead_code)]
+fn deep(t: Tier) -> bool {
+    t == Tier::Thorough
+}
+
 fn methods() -> Vec<&'static str> {
     vec![
         "GET", "HEAD", "POST", "PUT", "DELETE", "CONNECT", "OPTIONS", "TRACE", "PATCH", "get",
@@ -32,7 +43,7 @@ fn targets() -> Vec<String> {
 
 fn names(tier: Tier) -> Vec<String> {
     let mut v: Vec<String> = vec!["Host".into(), "X-A".into(), "x-a".into()];
-    if tier == Tier::Thorough {
+    if full(tier) {
         v.push("host".into());
         v.push("HOST".into());
         v.push("!#$%&'*+-.^_`|~09Az".into());
@@ -43,7 +54,7 @@ fn names(tier: Tier) -> Vec<String> {
 
 fn values(tier: Tier) -> Vec<String> {
     let mut v: Vec<String> = vec!["".into(), "Va1".into(), "A:b".into(), "12: 30".into()];
-    if tier == Tier::Thorough {
+    if full(tier) {
         v.push(":".into());
         v.push("a  B".into());
         v.push("x=1; note=\"k: v\", z".into());
@@ -55,7 +66,7 @@ fn values(tier: Tier) -> Vec<String> {
 
 fn ows(tier: Tier) -> Vec<(&'static str, &'static str)> {
     let mut v = vec![("", ""), (" ", "")];
-    if tier == Tier::Thorough {
+    if full(tier) {
         v.push(("\t", "\t"));
         v.push(("  ", "  "));
     }
@@ -109,7 +120,7 @@ fn heads(tier: Tier) -> Vec<(Vec<u8>, bool)> {
         for t in &ts {
             for v10 in [false, true] {
                 for (i, l) in few.iter().enumerate() {
-                    if tier == Tier::Quick && i == 1 {
+                    if !full(tier) && i == 1 {
                         continue;
                     }
                     out.push((head(m, t, if v10 { "1.0" } else { "1.1" }, l), v10));
@@ -133,7 +144,7 @@ fn heads(tier: Tier) -> Vec<(Vec<u8>, bool)> {
     }
     // long lists by cycling atoms
     for n in [3usize, 8, 63, 64] {
-        for off in 0..(if tier == Tier::Quick { 1 } else { 4 }) {
+        for off in 0..(if !full(tier) { 1 } else { 4 }) {
             let lines: Vec<String> = (0..n).map(|i| at[(i * 7 + off) % at.len()].clone()).collect();
             let (m, t, v10) = rl(&mut k);
             out.push((head(m, &t, if v10 { "1.0" } else { "1.1" }, &lines), v10));
@@ -153,7 +164,7 @@ fn heads(tier: Tier) -> Vec<(Vec<u8>, bool)> {
 fn packs(tier: Tier) -> &'static Vec<Vec<u8>> {
     static Q: OnceLock<Vec<Vec<u8>>> = OnceLock::new();
     static T: OnceLock<Vec<Vec<u8>>> = OnceLock::new();
-    let cell = if tier == Tier::Quick { &Q } else { &T };
+    let cell = if !full(tier) { &Q } else { &T };
     cell.get_or_init(|| {
         let mut packs = Vec::new();
         let mut cur: Vec<u8> = Vec::new();
